@@ -36,6 +36,8 @@ type glTarget struct {
 	name     string
 	strBytes bool            // translate `string` as List UInt8 (else String)
 	opaque   map[string]bool // package-level functions kept as parameters
+	drop     map[string]bool // package-level functions whose calls are dropped (logging helpers)
+	listElem string          // value type of the container/list elements this function handles (repo struct name)
 }
 
 var glTargets = []glTarget{
@@ -48,6 +50,15 @@ var glTargets = []glTarget{
 	{pkg: "net", recv: "", name: "IsPrivateAddress"},
 	{pkg: "net", recv: "", name: "RequirePublicIP"},
 	{pkg: "ipinfo", recv: "", name: "GetIPInfoFromIP"},
+	{pkg: "service", recv: "", name: "matchesIP", listElem: "CipherEntry"},
+	{pkg: "service", recv: "cipherList", name: "SnapshotForClientIP", listElem: "CipherEntry"},
+	{pkg: "service", recv: "cipherList", name: "MarkUsedByClientIP", listElem: "CipherEntry"},
+	{pkg: "service", recv: "cipherList", name: "Update", listElem: "CipherEntry"},
+	{pkg: "service", recv: "", name: "findEntry", listElem: "CipherEntry", opaque: map[string]bool{"Unpack": true}, drop: map[string]bool{"debugTCP": true}},
+	{pkg: "service/metrics", recv: "measuredConn", name: "Read"},
+	{pkg: "service/metrics", recv: "measuredConn", name: "Write"},
+	{pkg: "service/metrics", recv: "measuredConn", name: "WriteTo"},
+	{pkg: "service/metrics", recv: "measuredConn", name: "ReadFrom"},
 	{pkg: "prometheus", recv: "tunnelTimeMetrics", name: "reportTunnelTime", opaque: map[string]bool{"asnLabel": true}},
 	{pkg: "prometheus", recv: "tunnelTimeMetrics", name: "startConnection"},
 	{pkg: "prometheus", recv: "tunnelTimeMetrics", name: "stopConnection", opaque: map[string]bool{"asnLabel": true}},
@@ -76,6 +87,7 @@ type glFn struct {
 	ptrParams []int // indices of pointer parameters that are threaded through
 	alias     map[types.Object]glAlias // pointer local -> where its object lives (a map element)
 	ptrLocal  map[types.Object]string    // pointer locals with a nil flag: name of the flag
+	elemAlias map[types.Object]*ast.Ident // pointer local obtained by e.Value.(*T): the element variable e
 	used    map[string]bool
 	g       *golean
 }
@@ -88,6 +100,8 @@ type golean struct {
 	sorder  []string
 	effs    map[string]bool // lean struct names that need an eff field
 	keyStructs map[string]bool // lean struct names used as map keys (need DecidableEq)
+	curListElem string
+	listElemOf map[string]string // lean struct name -> element type of its container/list fields
 	strMode map[string]bool // lean struct name -> strBytes mode it was first used with
 }
 
@@ -184,6 +198,29 @@ func (g *golean) leanType(t types.Type, strBytes bool, f *glFn) string {
 		return "(List UInt8)"
 	case isNamed(t, "net", "IPNet"):
 		return "(List UInt8 × List UInt8)"
+	case isNamed(t, "container/list", "Element"), isNamed(t, "container/list", "List"):
+		le := ""
+		if f != nil {
+			le = f.t.listElem
+		} else {
+			le = g.curListElem
+		}
+		if le == "" {
+			if f != nil {
+				return f.fail(f.fd, "container/list without a configured element type")
+			}
+			return "sorryUnsupported"
+		}
+		// make sure the element structure is declared
+		if f != nil {
+			if o := f.p.Types.Scope().Lookup(le); o != nil {
+				g.leanType(o.Type(), strBytes, f)
+			}
+		}
+		if isNamed(t, "container/list", "Element") {
+			return "(ListElem " + le + ")"
+		}
+		return "(List (ListElem " + le + "))"
 	}
 	switch u := t.(type) {
 	case *types.Alias:
@@ -239,6 +276,9 @@ func (g *golean) leanType(t types.Type, strBytes bool, f *glFn) string {
 			if _, ok := g.structs[name]; !ok {
 				g.structs[name] = u
 				g.strMode[name] = strBytes
+				if f != nil {
+					g.listElemOf[name] = f.t.listElem
+				}
 				// visit field types first so that they are declared before this structure
 				for i := 0; i < uu.NumFields(); i++ {
 					if g.fieldKept(uu.Field(i)) {
@@ -270,11 +310,12 @@ func (g *golean) fieldKept(v *types.Var) bool {
 	if p, ok := t.(*types.Pointer); ok {
 		t = p.Elem()
 		if _, ok := t.Underlying().(*types.Struct); ok && !isRepoType(t) {
-			return false
+			return isNamed(t, "github.com/Jigsaw-Code/outline-sdk/transport/shadowsocks", "EncryptionKey") || isNamed(t, "container/list", "List")
 		}
 	}
 	if v.Embedded() {
-		return false
+		_, isI := t.Underlying().(*types.Interface)
+		return isI
 	}
 	if _, ok := t.Underlying().(*types.Chan); ok {
 		return false
@@ -310,6 +351,8 @@ func (g *golean) zero(t types.Type, strBytes bool) string {
 		return "⟨0⟩"
 	case strings.HasPrefix(lt, "(List UInt8 ×"):
 		return "([], [])"
+	case strings.HasPrefix(lt, "(ListElem "):
+		return "(GoRT.ListElem.mk 0 " + strings.TrimSuffix(strings.TrimPrefix(lt, "(ListElem "), ")") + ".zero)"
 	}
 	if _, ok := g.structs[lt]; ok {
 		return lt + ".zero"
@@ -347,6 +390,17 @@ func (f *glFn) constOf(e ast.Expr) (string, bool) {
 		return leanStr(s), true
 	}
 	return "", false
+}
+
+func isPtrResult(t types.Type) bool {
+	return isPtrToRepoStruct(t) || (func() bool { p, ok := t.(*types.Pointer); return ok && isNamed(p.Elem(), "container/list", "Element") })()
+}
+
+func derefT(t types.Type) types.Type {
+	if p, ok := t.(*types.Pointer); ok {
+		return p.Elem()
+	}
+	return t
 }
 
 func isIntLean(lt string) bool { return lt == "Int" }
@@ -409,6 +463,25 @@ func (f *glFn) expr(e ast.Expr) string {
 	case *ast.SliceExpr:
 		if x.Low == nil && x.High == nil {
 			return f.expr(x.X)
+		}
+		if x.Max == nil {
+			lo, hi := "(0 : Int)", "(GoRT.len "+f.expr(x.X)+")"
+			if x.Low != nil {
+				lo = f.expr(x.Low)
+			}
+			if x.High != nil {
+				hi = f.expr(x.High)
+			}
+			return "(← GoRT.slice " + f.expr(x.X) + " " + lo + " " + hi + ")"
+		}
+	case *ast.TypeAssertExpr:
+		// e.Value.(*T) on a container/list element whose value type is the configured one
+		if se, ok := x.X.(*ast.SelectorExpr); ok && se.Sel.Name == "Value" && x.Type != nil {
+			if isNamed(derefT(f.typeOf(se.X)), "container/list", "Element") {
+				if f.leanType(f.p.TypesInfo.TypeOf(x.Type)) == f.t.listElem {
+					return f.expr(se.X) + ".Value"
+				}
+			}
 		}
 	case *ast.CompositeLit:
 		return f.composite(x)
@@ -512,6 +585,9 @@ func (f *glFn) binary(x *ast.BinaryExpr) string {
 func (f *glFn) composite(x *ast.CompositeLit) string {
 	t := f.typeOf(x)
 	lt := f.leanType(t)
+	if strings.HasPrefix(lt, "(Opaque ") && len(x.Elts) == 0 {
+		return "(⟨0⟩ : " + lt + ")"
+	}
 	switch u := t.Underlying().(type) {
 	case *types.Struct:
 		if u.NumFields() == 0 {
@@ -665,8 +741,21 @@ func (f *glFn) call(c *ast.CallExpr, value bool) string {
 		full = rp + "." + rn + "." + fn.Name()
 	}
 	sel, _ := c.Fun.(*ast.SelectorExpr)
+	if rn == "" && f.t.drop[fn.Name()] {
+		if value {
+			return f.fail(c, "dropped helper %s used as a value", fn.Name())
+		}
+		return ""
+	}
 	// --- standard library table ---
 	switch full {
+	case "container/list.List.Len":
+		return "(GoRT.len " + f.expr(sel.X) + ")"
+	case "container/list.List.MoveToFront":
+		if value {
+			return f.fail(c, "MoveToFront as a value")
+		}
+		return f.assign(sel.X, "(GoRT.moveToFront "+f.expr(sel.X)+" "+f.expr(c.Args[0])+".id)")
 	case "sync.Mutex.Lock", "sync.Mutex.Unlock", "sync.RWMutex.Lock", "sync.RWMutex.Unlock", "sync.RWMutex.RLock", "sync.RWMutex.RUnlock":
 		return ""
 	case "time.Now":
@@ -764,6 +853,13 @@ func (f *glFn) call(c *ast.CallExpr, value bool) string {
 				}
 			}
 		}
+	}
+	// io.Copy(dst, src): what it moves is the business of the two ends; a parameter
+	if full == "io.Copy" {
+		ats := []string{f.leanType(f.typeOf(c.Args[0])), f.leanType(f.typeOf(c.Args[1]))}
+		pname := "io_Copy_" + strings.NewReplacer("(Opaque \"", "", "\")", "", ".", "_").Replace(ats[0]) + "_" + strings.NewReplacer("(Opaque \"", "", "\")", "", ".", "_").Replace(ats[1])
+		f.addExtra(pname, strings.Join(ats, " → ")+" → "+f.resultType(sig))
+		return "(" + pname + " " + f.expr(c.Args[0]) + " " + f.expr(c.Args[1]) + ")"
 	}
 	// a method of a standard-library value the code does not look into (netip.Addr.AsSlice ...): a parameter
 	if sel != nil && rn != "" && !strings.HasPrefix(rp, "github.com/Jigsaw-Code/outline-ss-server") && value {
@@ -1181,6 +1277,22 @@ func (f *glFn) stmt(s ast.Stmt, ind int) {
 			return
 		}
 		if len(x.Rhs) == 1 && len(x.Lhs) == 2 {
+			// comma-ok type assertion on an interface value: whether the dynamic type implements the
+			// target interface is a parameter (a predicate on the token); the converted value is the same token
+			if ta, ok := x.Rhs[0].(*ast.TypeAssertExpr); ok && ta.Type != nil {
+				src := f.leanType(f.typeOf(ta.X))
+				dst := f.leanType(f.p.TypesInfo.TypeOf(ta.Type))
+				if strings.HasPrefix(src, "(Opaque ") && strings.HasPrefix(dst, "(Opaque ") {
+					pname := "implements_" + strings.NewReplacer("(Opaque \"", "", "\")", "", ".", "_").Replace(dst)
+					f.addExtra(pname, src+" → Bool")
+					xv := f.expr(ta.X)
+					f.emit(ind, f.defOrAssign(x, 0, "(⟨("+xv+").val⟩ : "+dst+")"))
+					f.emit(ind, f.defOrAssign(x, 1, "("+pname+" "+xv+")"))
+					return
+				}
+				f.fail(s, "type assertion %s", exprString(ta))
+				return
+			}
 			// comma-ok map lookup
 			if ie, ok := x.Rhs[0].(*ast.IndexExpr); ok {
 				if m, ok := f.typeOf(ie.X).Underlying().(*types.Map); ok {
@@ -1235,6 +1347,20 @@ func (f *glFn) stmt(s ast.Stmt, ind int) {
 			return
 		}
 		f.emit(ind, f.defOrAssign(x, 0, f.exprAs(x.Rhs[0], f.typeOf(x.Lhs[0]))))
+		if ta, ok := x.Rhs[0].(*ast.TypeAssertExpr); ok {
+			// c := e.Value.(*T): c points to the object the element e points to
+			if se, ok := ta.X.(*ast.SelectorExpr); ok && se.Sel.Name == "Value" {
+				if eid, ok := se.X.(*ast.Ident); ok {
+					if obj := f.objOf(x.Lhs[0]); obj != nil {
+						if f.elemAlias == nil {
+							f.elemAlias = map[types.Object]*ast.Ident{}
+						}
+						f.elemAlias[obj] = eid
+					}
+				}
+			}
+			return
+		}
 		f.afterStore(x.Lhs[0], x.Rhs[0], ind)
 	case *ast.IncDecStmt:
 		op := " + 1"
@@ -1275,16 +1401,30 @@ func (f *glFn) stmt(s ast.Stmt, ind int) {
 		if !f.sameAlias(afterThen, !endsInReturn(x.Body)) {
 			f.fail(x, "a pointer local lives in different places after the two branches")
 		}
+	case *ast.BranchStmt:
+		if x.Tok == token.CONTINUE && x.Label == nil {
+			f.emit(ind, "continue")
+		} else {
+			f.fail(s, "branch statement %s", x.Tok)
+		}
 	case *ast.ReturnStmt:
 		var parts []string
 		for _, io := range f.inouts {
 			parts = append(parts, lid(io))
 		}
 		rsig := f.p.TypesInfo.Defs[f.fd.Name].Type().(*types.Signature).Results()
+		if len(x.Results) == 0 && rsig.Len() > 0 {
+			f.fail(x, "bare return with named results")
+		}
 		for i, r := range x.Results {
-			if f.inLit {
+			switch {
+			case f.inLit:
 				parts = append(parts, f.expr(r))
-			} else {
+			case isPtrResult(rsig.At(i).Type()) && isNilIdent(r):
+				parts = append(parts, "none")
+			case isPtrResult(rsig.At(i).Type()):
+				parts = append(parts, "(some "+f.expr(r)+")")
+			default:
 				parts = append(parts, f.exprAs(r, rsig.At(i).Type()))
 			}
 		}
@@ -1341,6 +1481,12 @@ func (f *glFn) stmt(s ast.Stmt, ind int) {
 			f.fail(s, "range over %s", f.typeOf(x.X))
 		}
 	case *ast.ForStmt:
+		// for e := l.Front(); e != nil; e = e.Next() { ... } where the body does not assign e: the elements front to back
+		if ev, lst, ok := f.listLoop(x); ok {
+			f.emit(ind, "for "+f.idName(ev)+" in "+f.expr(lst)+" do")
+			f.block(x.Body.List, ind+1)
+			return
+		}
 		// for i := lo; i < hi; i++ { ... } where the body does not assign i
 		init, ok1 := x.Init.(*ast.AssignStmt)
 		cond, ok2 := x.Cond.(*ast.BinaryExpr)
@@ -1392,6 +1538,26 @@ func (f *glFn) stmt(s ast.Stmt, ind int) {
 func (f *glFn) afterStore(lhs, rhs ast.Expr, ind int) {
 	obj, bare := f.rootObj(lhs)
 	if obj != nil && !bare {
+		if eid, ok := f.elemAlias[obj]; ok {
+			// a store through e.Value.(*T): the element variable and every container/list of the receiver see it
+			en, cn := f.idName(eid), f.nameOf(obj, obj.Name())
+			f.emit(ind, en+" := { "+en+" with Value := "+cn+" }")
+			if f.recvInOut {
+				recv := f.fd.Recv.List[0].Names[0]
+				rt := derefT(f.p.TypesInfo.Defs[recv].Type())
+				if st, ok := rt.Underlying().(*types.Struct); ok {
+					for i := 0; i < st.NumFields(); i++ {
+						if isNamed(derefT(st.Field(i).Type()), "container/list", "List") {
+							rn, fn := f.idName(recv), lid(st.Field(i).Name())
+							f.emit(ind, rn+" := { "+rn+" with "+fn+" := (GoRT.setValue "+rn+"."+fn+" "+en+".id "+cn+") }")
+						}
+					}
+				}
+			}
+			return
+		}
+	}
+	if obj != nil && !bare {
 		if _, isPtr := f.ptrLocalOrAlias(obj); isPtr {
 			f.emit(ind, f.writeBack(lhs))
 		}
@@ -1421,6 +1587,72 @@ func (f *glFn) ptrLocalOrAlias(obj types.Object) (string, bool) {
 		return "", true
 	}
 	return "", false
+}
+
+func (f *glFn) listLoop(x *ast.ForStmt) (*ast.Ident, ast.Expr, bool) {
+	init, ok := x.Init.(*ast.AssignStmt)
+	if !ok || init.Tok != token.DEFINE || len(init.Lhs) != 1 || len(init.Rhs) != 1 {
+		return nil, nil, false
+	}
+	ev, ok := init.Lhs[0].(*ast.Ident)
+	if !ok {
+		return nil, nil, false
+	}
+	fc, ok := init.Rhs[0].(*ast.CallExpr)
+	if !ok {
+		return nil, nil, false
+	}
+	fs, ok := fc.Fun.(*ast.SelectorExpr)
+	if !ok || fs.Sel.Name != "Front" || !isNamed(derefT(f.typeOf(fs.X)), "container/list", "List") {
+		return nil, nil, false
+	}
+	cond, ok := x.Cond.(*ast.BinaryExpr)
+	if !ok || cond.Op != token.NEQ || !isNilIdent(cond.Y) {
+		return nil, nil, false
+	}
+	if id, ok := cond.X.(*ast.Ident); !ok || id.Name != ev.Name {
+		return nil, nil, false
+	}
+	post, ok := x.Post.(*ast.AssignStmt)
+	if !ok || post.Tok != token.ASSIGN || len(post.Lhs) != 1 || len(post.Rhs) != 1 {
+		return nil, nil, false
+	}
+	if id, ok := post.Lhs[0].(*ast.Ident); !ok || id.Name != ev.Name {
+		return nil, nil, false
+	}
+	nc, ok := post.Rhs[0].(*ast.CallExpr)
+	if !ok {
+		return nil, nil, false
+	}
+	ns, ok := nc.Fun.(*ast.SelectorExpr)
+	if !ok || ns.Sel.Name != "Next" {
+		return nil, nil, false
+	}
+	if id, ok := ns.X.(*ast.Ident); !ok || id.Name != ev.Name {
+		return nil, nil, false
+	}
+	// the body must not assign the loop variable nor change the list
+	obj := f.p.TypesInfo.Defs[ev]
+	bad := false
+	ast.Inspect(x.Body, func(n ast.Node) bool {
+		if a, ok := n.(*ast.AssignStmt); ok {
+			for _, l := range a.Lhs {
+				if id, ok := l.(*ast.Ident); ok && f.p.TypesInfo.Uses[id] == obj {
+					bad = true
+				}
+			}
+		}
+		if c, ok := n.(*ast.CallExpr); ok {
+			if s, ok := c.Fun.(*ast.SelectorExpr); ok && exprString(s.X) == exprString(fs.X) && s.Sel.Name != "Len" {
+				bad = true
+			}
+		}
+		return true
+	})
+	if bad {
+		return nil, nil, false
+	}
+	return ev, fs.X, true
 }
 
 func (f *glFn) defOrAssign(x *ast.AssignStmt, i int, rhs string) string {
@@ -1519,12 +1751,28 @@ func (f *glFn) translate() {
 	}
 	f.nres = sig.Results().Len()
 	for i := 0; i < sig.Results().Len(); i++ {
-		rets = append(rets, f.leanType(sig.Results().At(i).Type()))
+		rt := sig.Results().At(i).Type()
+		if isPtrResult(rt) {
+			rets = append(rets, "(Option "+f.leanType(rt)+")") // a pointer result may be nil
+		} else {
+			rets = append(rets, f.leanType(rt))
+		}
 	}
 	if len(rets) == 0 {
 		f.retTyp = "Unit"
 	} else {
 		f.retTyp = strings.Join(rets, " × ")
+	}
+	// named results are ordinary variables that start at zero
+	if rs := fd.Type.Results; rs != nil {
+		for _, fl := range rs.List {
+			for _, n := range fl.Names {
+				if n.Name != "_" {
+					t := f.p.TypesInfo.Defs[n].Type()
+					f.emit(1, "let mut "+f.idName(n)+" : "+f.leanType(t)+" := "+f.g.zero(t, f.t.strBytes))
+				}
+			}
+		}
 	}
 	list := fd.Body.List
 	// nil-receiver guard `if c == nil { return X }` : split off (the receiver is a value here)
@@ -1592,7 +1840,7 @@ func (f *glFn) header() string {
 }
 
 func genCode() {
-	g := &golean{pkgs: map[string]*packages.Package{}, fns: map[string]*glFn{}, structs: map[string]*types.Named{}, effs: map[string]bool{}, strMode: map[string]bool{}, keyStructs: map[string]bool{}}
+	g := &golean{pkgs: map[string]*packages.Package{}, fns: map[string]*glFn{}, structs: map[string]*types.Named{}, effs: map[string]bool{}, strMode: map[string]bool{}, keyStructs: map[string]bool{}, listElemOf: map[string]string{}}
 	cfg := &packages.Config{Mode: packages.NeedName | packages.NeedSyntax | packages.NeedTypes | packages.NeedTypesInfo | packages.NeedImports | packages.NeedDeps | packages.NeedFiles, Dir: repo}
 	want := map[string]bool{}
 	for _, t := range glTargets {
@@ -1658,6 +1906,7 @@ func genCode() {
 			continue
 		}
 		f := &glFn{t: t, p: p, fd: fd, g: g}
+		g.curListElem = t.listElem
 		f.translate()
 		key := t.pkg + "." + t.recv + "." + t.name
 		g.fns[key] = f
@@ -1670,6 +1919,7 @@ func genCode() {
 	for _, name := range g.sorder {
 		n := g.structs[name]
 		st := n.Underlying().(*types.Struct)
+		g.curListElem = g.listElemOf[name]
 		out.p("")
 		out.p("/-- %s.%s -/", n.Obj().Pkg().Name(), name)
 		out.p("structure %s where", name)
